@@ -43,11 +43,15 @@ type c16Plan struct {
 	LagVictim   bool
 	Pad         int
 	SecondCrash bool
+	SaveDelayMs int
 }
 
 var c16Events = []string{"sm-save-enter", "sm-save-exit", "sm-recover-enter", "sm-recover-exit", "logdb-snapshot-record-before",
 	"logdb-snapshot-record-after", "chunk", "sys-snapshot-created", "sys-snapshot-received", "sys-snapshot-recovered",
-	"sys-snapshot-compacted", "sys-log-compacted"}
+	"sys-snapshot-compacted", "sys-log-compacted",
+	// state dependent instant: a snapshot record has just become durable at an index
+	// above the commit index of the durable raft state
+	"snapshot-record-ahead-of-durable-commit"}
 
 type sysListener struct {
 	host string
@@ -168,9 +172,55 @@ func TestVF_C16_Cluster(t *testing.T) {
 			Pad:         []int{0, 3000, 70000, 300000}[vfhelp.Pick(t, "pad", 2)],
 			SecondCrash: vfhelp.Pick(t, "second", 2) == 0,
 		}
+		if vfhelp.Pick(t, "savedelay", 1) == 1 {
+			// a slow log store on every host: the step worker's SaveRaftState lags behind
+			// the apply and snapshot workers
+			p.SaveDelayMs = 1 + vfhelp.PickN(t, "savedelayms", 8)
+		}
 		ev := c16Events[p.Event]
 		if strings.Contains(ev, "recover") || strings.Contains(ev, "received") || ev == "chunk" {
 			p.LagVictim = true // these events only happen on a replica that receives a snapshot
+		}
+		canon, _ := json.Marshal(p)
+		labels, nt, sample := runC16(t, st, p)
+		if labels == nil {
+			return
+		}
+		st.Case(canon, nt, labels...)
+		if nt && st.WantSample() {
+			st.Sample(sample)
+		}
+	})
+}
+
+// TestVF_C16_SnapshotAheadOfState aims the same machinery at one window: the log
+// store is slow (SaveRaftState of the step worker takes several ms) while the
+// apply and snapshot workers run ahead (committed entries are handed to the apply
+// worker before the update that carries the new commit index is saved), and the
+// power fails right after the snapshot record was made durable.
+func TestVF_C16_SnapshotAheadOfState(t *testing.T) {
+	st := vfhelp.NewStats("TestVF_C16_SnapshotAheadOfState",
+		"E6: slow log store (generated SaveRaftState delay), small SnapshotEntries, power cut of one host right after its k-th snapshot record "+
+			"became durable; the host must restart; non-trivial = the trigger fired and the host was restarted; distinct = hash of the plan")
+	defer st.Flush()
+	rapid.Check(t, func(t *rapid.T) {
+		p := c16Plan{
+			Kind:        KVKind(vfhelp.PickN(t, "kind", 3)),
+			Tan:         vfhelp.Pick(t, "tan", 1) == 1,
+			Event:       []int{5, 12, 12, 12}[vfhelp.Pick(t, "event", 2)], // logdb-snapshot-record-after | snapshot-record-ahead-of-durable-commit
+			K:           1 + vfhelp.PickN(t, "k", 4),
+			Victim:      vfhelp.PickN(t, "victim", 3),
+			SnapEntries: uint64(2 + vfhelp.PickN(t, "snapentries", 5)),
+			Overhead:    uint64(1 + vfhelp.PickN(t, "overhead", 3)),
+			Writes:      40 + vfhelp.PickN(t, "writes", 60),
+			SaveDelayMs: 2 + vfhelp.PickN(t, "savedelayms", 30),
+		}
+		if p.Event == 12 {
+			p.K = 1
+			if p.Kind == KindRegular {
+				// the apply worker of a regular state machine is parked while a snapshot is saved
+				p.Kind = KindConcurrent
+			}
 		}
 		canon, _ := json.Marshal(p)
 		labels, nt, sample := runC16(t, st, p)
@@ -241,7 +291,14 @@ func runC16(t *rapid.T, st *vfhelp.Stats, p c16Plan) ([]string, bool, interface{
 				tr.fire("logdb-snapshot-record-before", host)
 			} else {
 				tr.fire("logdb-snapshot-record-after", host)
+				if d := h.Mon.Get(shardID, uint64(h.Idx+1)); d.SnapIndex > d.State.Commit {
+					tr.fire("snapshot-record-ahead-of-durable-commit", host)
+				}
 			}
+		}
+		if p.SaveDelayMs > 0 {
+			d := time.Duration(p.SaveDelayMs) * time.Millisecond
+			h.Mon.SaveDelay = func() time.Duration { return d }
 		}
 		if err := h.Start(); err != nil {
 			return inconclusive("start")
@@ -353,7 +410,11 @@ func runC16(t *rapid.T, st *vfhelp.Stats, p c16Plan) ([]string, bool, interface{
 		rcfg := cfgOf(uint64(victim.Idx + 1)).Config
 		rcfg.SnapshotEntries = 0
 		if err := victim.StartReplica(spec, members, false, rcfg); err != nil {
-			vfhelp.Fail(t, "restart-failed", "StartReplica after power cut at %s: %v", ev, err)
+			d := victim.Mon.Get(shardID, uint64(victim.Idx+1))
+			// fatal unless the signature is a listed known finding
+			st.Known(t, restartSig(err), "StartReplica after power cut at %s: %v (snapshot record %d, durable state %+v)", ev, err, d.SnapIndex, d.State)
+			c.Net.SetDead(victim.Addr, false)
+			return
 		}
 		finals, problems := inspectSnapshotDirs(victim)
 		for _, pr := range problems {
@@ -398,7 +459,7 @@ func runC16(t *rapid.T, st *vfhelp.Stats, p c16Plan) ([]string, bool, interface{
 			return inconclusive(v.Sig)
 		}
 		if v.Sig == "linearizability-violated" || v.Sig == "completed-request-never-applied" || v.Sig == "replicas-applied-different-entries" ||
-			v.Sig == "restart-failed" || v.Sig == "update-index-not-increasing" || v.Sig == "ondisk-update-at-or-below-open-index" {
+			v.Sig == "restart-failed" || v.Sig == "restart-panics-commit-outside-log-range" || v.Sig == "update-index-not-increasing" || v.Sig == "ondisk-update-at-or-below-open-index" {
 			vfhelp.Fail(t, v.Sig, "after power cut at %s (fired %v): %s", ev, fired, v.Msg)
 		}
 		st.Count("foreign-violation:"+v.Sig, 1)
